@@ -18,6 +18,8 @@ def run(chk):
     chk.configs = cfgs
     chk.rule("TRIM.closed-only", "every call of TrimHorz is unreachable for an open edge (dominating conditions interpreted with IsOpen answered true): no vertex of an open "
              "path is trimmed away")
+    chk.rule("GUARD", "BuildPath64/D: entry guard table (open paths need two points) and final filter table (only a closed three-point sliver is discarded: an open "
+             "piece of three vertices keeps its length)")
     chk.rule("FLAG.sticky", "has_open_paths_ is only switched on where paths are added (`= true`) and off in Clear(): a later closed path cannot switch the "
              "open-path logic of the sweep off")
     chk.rule("T.detach", "an edge that stops contributing clears its output record's pointer to itself: front_edge iff IsFront(edge), else back_edge (IntersectEdges, "
@@ -40,6 +42,7 @@ def run(chk):
         _e10t.rule_trim_closed_only(db, chk, cfg)
         from ..engines import e10_pipeline as _e10f
         _e10f.rule_sticky_open_flag(db, chk, cfg)
+        _e10f.rule_guard(db, chk, cfg)           # the builders' final filter must not discard an open three-vertex piece
         e3.table_open(db, chk, cfg)
         e3.table_open_toggle(db, chk, cfg)
         e3.closing_vertex_rule(db, chk, cfg)
